@@ -423,8 +423,10 @@ def gen_case(rng, directed=None):
     g = Gen(rng, directed)
     ops = g.history()
     feat = dict(g.feat)
+    # a fifth of the histories runs with the recalculation option on: an assignment recomputes the leaf dependents at
+    # once - ItemSpaces among them (recalc_itemspace_target, repaired in /repo)
     return {"nested": True, "ops": ops, "profile": "nested", "features": feat, "edits": g.edits,
-            "avoided": g.avoided, "one_batch_edits": g.one_batch}
+            "avoided": g.avoided, "one_batch_edits": g.one_batch, "recalc": rng.random() < 0.2}
 
 
 def demo_case():
